@@ -1144,4 +1144,120 @@ pub fn run(rep: &mut Rep) {
         harvest(rep, &mut w, &id);
         add_counters(rep, &w);
     }
+    resumption_with_options(rep);
+}
+
+/// Session resumption with the caller's options on the publishes: what is sent again must carry the same options as
+/// the first transmission (the same bytes but for the DUP flag), and PUBREL packets must be repeated unchanged.
+fn resumption_with_options(rep: &mut Rep) {
+    let specs: Vec<PubSpec> = publish_specs(rep).into_iter().filter(|s| s.eff_qos() > 0 && s.topic.is_some() && s.payload.as_ref().map(|p| p.len() < 70_000).unwrap_or(true)).collect();
+    let n = if rep.quick() { 400 } else { 20_000 };
+    rep.note(&format!("resumption with options: {n} sessions, each with 1-4 QoS 1/2 publishes drawn from the {} generated publish requests (retain, every property, boundary sizes), some QoS 2 ones already released (PUBREC delivered), connection cut, session resumed: every re-sent PUBLISH must equal its first transmission in every field with DUP=1 and differ from it in that one bit only, every re-sent PUBREL must repeat the original bytes", specs.len()));
+    if specs.is_empty() {
+        return;
+    }
+    for k in 0..n {
+        let id = format!("resume-opts:{k}");
+        if !rep.take(95_000_000 + k, &id) {
+            continue;
+        }
+        let mut rng = Rng::new(rep.seed.wrapping_mul(9176).wrapping_add(k));
+        let mut sim = Sim::new(rep.seed);
+        sim.log_enabled = true;
+        sim.cmd(Cmd::Connect(ConnSpec { sei: Some(3600), ..Default::default() }));
+        sim.settle();
+        sim.feed_packet(&rc::SPacket::Connack { session_present: false, reason: 0, props: vec![] });
+        sim.settle();
+        sim.cmd(Cmd::Run);
+        sim.settle();
+        sim.parse_wire();
+        let base = sim.wire.len();
+        let cnt = 1 + rng.below(4);
+        let mut chosen = Vec::new();
+        for _ in 0..cnt {
+            let sp = specs[rng.below(specs.len())].clone();
+            sim.start_op(0, OpSpec::Publish(sp.clone()));
+            sim.settle();
+            chosen.push(sp);
+        }
+        sim.parse_wire();
+        let first: Vec<WirePkt> = sim.wire[base..].to_vec();
+        // originals in wire order; release some of the QoS 2 ones
+        let mut originals: Vec<(rc::Publish, Vec<u8>)> = Vec::new();
+        for wpk in &first {
+            if let Ok(CPacket::Publish(p)) = &wpk.pkt {
+                originals.push((p.clone(), wpk.bytes.clone()));
+            }
+        }
+        let mut released: Vec<u16> = Vec::new();
+        for (p, _) in &originals {
+            if p.qos == 2 && rng.chance(1, 2) {
+                sim.feed_packet(&rc::SPacket::Ack { kind: rc::AckKind::Pubrec, id: p.id.unwrap_or(0), reason: 0, props: vec![], form: rc::AckForm::Short2 });
+                sim.settle();
+                released.push(p.id.unwrap_or(0));
+            }
+        }
+        sim.parse_wire();
+        let pubrel_bytes: Vec<Vec<u8>> = sim.wire[base..].iter().filter(|w| matches!(&w.pkt, Ok(CPacket::Ack(a)) if a.kind == rc::AckKind::Pubrel)).map(|w| w.bytes.clone()).collect();
+        sim.set_eof();
+        sim.settle();
+        sim.cmd(Cmd::MarkDisconnected(1));
+        sim.new_transport();
+        sim.cmd(Cmd::Connect(ConnSpec { sei: Some(3600), ..Default::default() }));
+        sim.settle();
+        sim.feed_packet(&rc::SPacket::Connack { session_present: true, reason: 0, props: vec![] });
+        sim.settle();
+        sim.parse_wire();
+        let after_connect = sim.wire.len();
+        sim.cmd(Cmd::Run);
+        sim.settle();
+        sim.parse_wire();
+        rep.add("evaluations", 1);
+        rep.add("resumed_sessions_with_options", 1);
+        rep.distinct(&("resume-opts", k));
+        for p in sim.panics.clone() {
+            report(rep, format!("C01/panic/{p}"), &id, format!("panic during resumption: {p}"));
+        }
+        if let Some(e) = sim.wire_split_error.clone() {
+            report(rep, "C01/resent-bytes-unsplittable".into(), &id, format!("{e}\n{}", sim.tail_log(25)));
+            continue;
+        }
+        let resent: Vec<WirePkt> = sim.wire[after_connect..].to_vec();
+        let want_pubs: Vec<&(rc::Publish, Vec<u8>)> = originals.iter().filter(|(p, _)| !released.contains(&p.id.unwrap_or(0))).collect();
+        let got_pubs: Vec<&WirePkt> = resent.iter().filter(|w| matches!(&w.pkt, Ok(CPacket::Publish(_)) | Err(_))).collect();
+        let got_rels: Vec<&WirePkt> = resent.iter().filter(|w| matches!(&w.pkt, Ok(CPacket::Ack(_)))).collect();
+        for (j, (orig, obytes)) in want_pubs.iter().enumerate() {
+            let Some(g) = got_pubs.get(j) else { break };
+            rep.add("retransmitted_packets_decoded", 1);
+            match &g.pkt {
+                Err(e) => report(rep, "C01/malformed-packet/pkt=PUBLISH/resent".into(), &id, format!("re-sent PUBLISH rejected by the reference decoder: {e}\nfirst bytes {:02x?}", &g.bytes[..g.bytes.len().min(40)])),
+                Ok(CPacket::Publish(p)) => {
+                    let mut want = orig.clone();
+                    want.dup = true;
+                    if *p != want {
+                        let field = if p.retain != want.retain { "retain" } else if p.qos != want.qos { "qos" } else if p.id != want.id { "packet_identifier" } else if p.topic != want.topic { "topic" } else if p.payload != want.payload { "payload" } else if p.props != want.props { "properties" } else { "dup" };
+                        report(rep, format!("C01/value-mismatch/pkt=PUBLISH/resent/field={field}"), &id, format!("re-sent PUBLISH differs from its first transmission in {field}: first {} , re-sent {}\nfirst bytes {:02x?}\nre-sent bytes {:02x?}", CPacket::Publish(orig.clone()).brief(), CPacket::Publish(p.clone()).brief(), &obytes[..obytes.len().min(24)], &g.bytes[..g.bytes.len().min(24)]));
+                    } else {
+                        let mut ob = obytes.clone();
+                        ob[0] |= 0x08;
+                        if ob != g.bytes {
+                            report(rep, "C01/value-mismatch/pkt=PUBLISH/resent/field=bytes".into(), &id, format!("re-sent PUBLISH decodes to the same values but its bytes differ from the first transmission in more than the DUP bit"));
+                        } else {
+                            rep.add("packets_decoded_and_matched", 1);
+                        }
+                    }
+                }
+                _ => {}
+            }
+        }
+        for (j, ob) in pubrel_bytes.iter().enumerate() {
+            if let Some(g) = got_rels.get(j) {
+                rep.add("retransmitted_packets_decoded", 1);
+                if &g.bytes != ob {
+                    report(rep, "C01/value-mismatch/pkt=PUBREL/resent".into(), &id, format!("re-sent PUBREL {:02x?} differs from the original {:02x?}", g.bytes, ob));
+                }
+            }
+        }
+        rep.sample(|| format!("{id}: {} publishes ({} released) -> {} PUBLISH and {} PUBREL re-sent unchanged", originals.len(), released.len(), got_pubs.len(), got_rels.len()));
+    }
 }
